@@ -51,6 +51,7 @@ static int prof_col(int i) {
   case 3: return 64 + 3 * i;                         /* first 64 columns entirely zero (KW >= 2) */
   case 4: return (i < 2) ? i : 61 + i;               /* gap from column 1 to 63.. */
   case 5: return (i < 3) ? i : 297 + i;              /* gap of ~300 zero columns (KW >= 6): mid-way density check of the hybrid */
+  case 8: return (i == 0) ? 0 : ((i <= GAPAT) ? 24 + i : 24 + i + GAPLEN); /* one pivot, 24-column gap, then GAPAT pivots in one block, gap */
   case 7: return i + (i >= GAPAT ? GAPLEN : 0);      /* one gap of GAPLEN columns after GAPAT pivots */
   default: return i;
   }
